@@ -140,7 +140,7 @@ def run_job(prop, job, tier, verbose=False, loopless=False):
                functions=job.functions, status="error", obligations=0, discharged=0, failed=[], infra_failed=[],
                solver_s=0.0, wall_s=0.0, detail="", reach_inputs=None, loop_obligations=0, cmds=[])
     t0 = time.time()
-    to = job.timeout or (300 if tier == "quick" else 1800)
+    to = job.timeout or (900 if tier == "quick" else 2400)
     defs = {"VC_CBMC": None}
     defs.update(job.defines)
     prelude = []
@@ -269,6 +269,10 @@ def run_job(prop, job, tier, verbose=False, loopless=False):
             res["discharged"] += 1
             if len(samples) < 4 and not name.startswith("__CPROVER") and (re.search(r"postcondition|loop_invariant_step|\.assigns\.", name) or desc.startswith("VC_CHECK") or desc.startswith("C20 ") or desc.startswith("C06 ")):
                 samples.append("%s: %s" % (name, desc[:140]))
+        elif st != "FAILURE":
+            # UNKNOWN: the back end did not decide this obligation (e.g. every path to it was cut by a failed unwinding
+            # assertion); neither discharged nor refuted
+            res["unknown"] = res.get("unknown", 0) + 1
         else:
             loc = r.get("sourceLocation", {})
             if desc.startswith("C20 "):
@@ -295,7 +299,9 @@ def run_job(prop, job, tier, verbose=False, loopless=False):
         res["status"] = "error"; res["failed"] = []; res["infra_failed"] = []
         res["detail"] = "solver error (out of memory?): " + " | ".join(msgs)[-300:]
         return res
-    if not reach_ok and res["failed"] and job.unwind_is_property:
+    if not reach_ok and res["failed"] and (job.unwind_is_property or not (job.loop_contracts and not loopless)):
+        # a failed assertion comes with a concrete trace and is real whether or not the end of the harness is reachable
+        # (e.g. a loop whose bound wrapped around: the unwinding assertion cuts every path, the out-of-bounds read before it stands)
         res["status"] = "failed"
         return res
     if not reach_ok:
@@ -304,6 +310,9 @@ def run_job(prop, job, tier, verbose=False, loopless=False):
         return res
     if job.loop_contracts and not loopless and res["loop_obligations"] < job.min_loops:
         res["status"] = "error"; res["detail"] = "expected >= %d loop step/variant obligations, saw %d (loop contract dropped?)" % (job.min_loops, res["loop_obligations"])
+        return res
+    if res.get("unknown") and not res["failed"] and not res["infra_failed"]:
+        res["status"] = "error"; res["detail"] = "%d obligations left UNKNOWN by the back end" % res["unknown"]
         return res
     if res["failed"]:
         res["status"] = "failed"
